@@ -64,6 +64,18 @@ CHECKS = {
              "returned references exactly equal; a repeated identical call must be bit-identical.",
         note="Exact equality across different batchings is deliberately not demanded (last-bit differences of BLAS kernels were "
              "observed at design time); references=function only with an integer random_state."),
+    "C07": dict(
+        technique="fault injection with exhaustive crash-point enumeration (k-th forward / reference-generator / backward call) + enumerated and Hypothesis-generated call histories, invariant checked after every step against a pristine copy",
+        category="fault_enumeration", design_ref="DESIGN.md §3 C07",
+        text="A model containing identity fault layers is handed to every model-taking API function (predict, deep_lift_shap in three "
+             "configurations, saturation_mutagenesis, marginalize/ablate/space and their annotation variants, the three variant-effect "
+             "functions, apply_pairwise/apply_product, greedy_substitution; func = predict and deep_lift_shap). A fault-free run counts the "
+             "forward, reference-generator and backward calls and every k-th one is made to raise, plus 11 input-validation failures; all "
+             "ordered pairs (failing step, any step) over that alphabet and generated histories of length 3-4 run on one shared model. "
+             "After every call or raise: no hooks or handles left, state_dict byte-identical, requires_grad/.grad unchanged, probe forward "
+             "and ordinary gradients torch.equal to a pristine copy, successful calls equal the result on a fresh copy.",
+        note="Crash points are those reachable through Python-level hooks (module forward, reference callable, autograd function); "
+             "leftover plain attributes and eval mode are allowed by the statement. cpu only."),
     "C08": dict(
         technique="property-based testing (Hypothesis): differential against explicit per-index loops, with an echo func that encodes the (X, args) it received and predict on an exact-integer model",
         category="exploration", design_ref="DESIGN.md §3 C08",
